@@ -2,7 +2,7 @@
 import glob, json
 print('| seed | property | what was changed | needs | caught by | history |')
 print('|---|---|---|---|---|---|')
-for d in sorted(glob.glob('/verif/seeded/S*/')):
+for d in sorted(glob.glob('/verif/seeded/S*/'), key=lambda p: int(p.rstrip('/').split('/')[-1].split('-')[0][1:])):
     m = json.load(open(d + 'meta.json'))
     name = d.rstrip('/').split('/')[-1]
     cut = lambda s, n: (s[:n] + '...') if len(s) > n else s
